@@ -108,6 +108,22 @@ pub fn execute(p: &EProg, prefix: &[u8], step_cap: u64) -> Execution {
             if st.steps_consumed > budget {
                 problems.push(format!("call #{}: budget {budget} but steps_consumed {}", calls.len(), st.steps_consumed));
             }
+            if ended.is_none() {
+                // truthfulness at the moment main ends (read-only hooks): completion / the error must be
+                // reported by THIS call, whatever other tasks are doing (running, blocked, pending host call)
+                let main_finished = rt.verif_main_finished();
+                let main_error = !main_finished && rt.main().get_error().is_some();
+                if main_finished && name != "done" {
+                    problems.push(format!("call #{}: main has finished but run_n_steps reported `{name}`", calls.len()));
+                }
+                if main_error && !name.starts_with("error") {
+                    problems.push(format!("call #{}: main stopped with a runtime error but run_n_steps reported `{name}`", calls.len()));
+                }
+                if (main_finished && name != "done") || (main_error && !name.starts_with("error")) {
+                    // do not keep driving a runtime whose status is already wrong
+                    return if main_finished { End::Done } else { End::StepCap };
+                }
+            }
             if let Some(e) = &ended {
                 // the reported status must stay what it was
                 if name != e.class() {
